@@ -254,3 +254,28 @@ Definition looks_like_archive_src (p : text) : bool :=
   end.
 Theorem looks_like_archive_is_model : forall p, looks_like_archive_src p = looks_like_archive p.
 Proof. intros p. reflexivity. Qed.
+
+(** * the variable order of the diagrams *)
+
+(** `Variable` (src/marker/algebra.rs) and `MarkerValueExtra` derive [Ord]: variants compare in declaration order, then
+    field by field.  The model's [var_code] (Marker/Concrete.v) numbers the kinds of variable in that order and puts
+    valid extra names before arbitrary ones, so [var_cmp] is the source's order *)
+Definition var_kind_name (v : var) : string :=
+  match v with
+  | VVersion _ => "Version" | VString _ => "String" | VIn _ _ => "In" | VContains _ _ => "Contains" | VExtra _ _ => "Extra"
+  end.
+Fixpoint sindex (x : string) (l : list string) : N :=
+  match l with nil => 0%N | cons y l' => if String.eqb x y then 0%N else N.succ (sindex x l') end.
+
+Theorem variable_order_is_model : forall v, fst (var_code v) = sindex (var_kind_name v) variable_order.
+Proof. intros v; destruct v; reflexivity. Qed.
+
+Theorem variable_order_covers : forall v, List.In (var_kind_name v) variable_order /\ NoDup variable_order /\ List.length variable_order = 5%nat.
+Proof.
+  intros v. split; [destruct v; cbn; tauto|]. split; [|reflexivity].
+  cbn. repeat (constructor; [cbn; intuition discriminate|]). constructor.
+Qed.
+
+Theorem extra_value_order_is_model : forall a s, fst (snd (snd (var_code (VExtra a s)))) = a /\
+  sindex (if a then "Arbitrary" else "Extra") extra_value_order = (if a then 1 else 0)%N.
+Proof. intros a s; destruct a; split; reflexivity. Qed.
